@@ -10,6 +10,11 @@ Proof. exact nav_units. Qed.
 Theorem C03_flow_neutral : forall p tv0 tv1, ~ pf_units p == 0 -> ~ tv0 == 0 -> ~ tv1 == 0 ->
   unit_net_value (pf_deposit p tv0 tv1) tv1 == unit_net_value p tv0.
 Proof. exact deposit_flow_neutral. Qed.
+(* the hypothesis above is the code's own guard: a flow into a portfolio whose unit net value is 0 is refused before anything changes *)
+Theorem C03_flow_refused_when_worthless : forall p tv0 tv1, qeq_b (unit_net_value p tv0) 0 = true -> pf_deposit_checked p tv0 tv1 = None.
+Proof. exact deposit_refused_when_worthless. Qed.
+Theorem C03_flow_accepted_otherwise : forall p tv0 tv1, qeq_b (unit_net_value p tv0) 0 = false -> pf_deposit_checked p tv0 tv1 = Some (pf_deposit p tv0 tv1).
+Proof. exact deposit_accepted_otherwise. Qed.
 Theorem C03_pending_counts_at_once : forall g a d x, total_value g (astep g a (EDepositPending d x)) == total_value g a + x.
 Proof. exact value_deposit_pending. Qed.
 Theorem C03_pending_arrival_neutral : forall g a today, total_value g (astep g a (EArrive today)) == total_value g a.
@@ -44,6 +49,8 @@ Proof. split; vm_compute; reflexivity. Qed.
 
 Print Assumptions C03_nav_times_units.
 Print Assumptions C03_flow_neutral.
+Print Assumptions C03_flow_refused_when_worthless.
+Print Assumptions C03_flow_accepted_otherwise.
 Print Assumptions C03_pending_counts_at_once.
 Print Assumptions C03_pending_arrival_neutral.
 Print Assumptions C03_latch_keeps_units.
